@@ -541,7 +541,8 @@ def addr_base58_to_pubkeyhash(address, as_hex=False):
     check = address[-4:]
     pkh = address[:-4]
     checksum = double_sha256(pkh)[0:4]
-    assert (check == checksum), "Invalid address, checksum incorrect"
+    if check != checksum:
+        raise EncodingError("Invalid address, checksum incorrect")
     if as_hex:
         return pkh.hex()[2:]
     else:
